@@ -155,6 +155,25 @@ def length_lemmas():
     return out
 
 
+def identity_set_lemmas():
+    """The set of message numbers with a payload definition is the standard's (pinned) set: a definition keyed by a neighbouring
+    number turns a reserved number into a decoded type and a defined type into a stub (C15: 'implemented types', 'numbers without a
+    payload definition')."""
+    core, g, m, i, _ = T()
+    out = []
+    std = set(pinned.LENGTHS) | {f"{p}{lvl}" for p in pinned.MSM_EPOCH for lvl in pinned.MSM_SAT_BITS}
+    tree = set(g) | set(m) | set(i)
+    for ident in sorted(std - tree):
+        out.append((f"tables.identity_defined[{ident}]", False, {"problem": "the standard defines this type; the tree has no payload definition for it"}))
+    for ident in sorted(tree - std):
+        out.append((f"tables.identity_is_a_standard_type[{ident}]", False, {"problem": "payload definition for a number the pinned standard tables do not define"}))
+    for ident in sorted(m):
+        inmsg = ident in core.RTCM_MSGIDS and "MSM" in core.RTCM_MSGIDS[ident]
+        out.append((f"tables.msm_type_is_described_as_MSM[{ident}]", inmsg, {"description": core.RTCM_MSGIDS.get(ident)}))
+    out.append(("tables.identity_set_is_the_standard_set", not (std ^ tree), {"standard": len(std), "tree": len(tree)}))
+    return out
+
+
 def _poly(hb, groups):
     """length formula as {monomial (sorted tuple of counter names): coefficient}"""
     p = {(): hb}
